@@ -6,7 +6,7 @@ import ast
 
 from vlib.core import AnalysisError, Report
 from vlib.flow import raised_name
-from vlib.match import FI, X, deref, facts, has_call, nodes
+from vlib.match import FI, X, atoms, deref, facts, has_call, nodes
 from vlib.srcindex import SourceIndex, mangle, unparse, walk_no_nested
 from vlib.stores import attr_of, effects_of, is_fresh, stores_of
 
@@ -83,6 +83,17 @@ def run(rep: Report, tier: str) -> None:
 				if b in ('self', 'other'):
 					ra.violate(f'{cls.name}.{mname}:mutates {b}.{a}', (DI_PY, n.lineno), f'{cls.name}.{mname} mutates {b}.{a} in place: the operand does not keep behaving as before', unparse(n))
 			ra.ok(f'{cls.name}.{mname}:no-operand-mutation', f.where)
+	# "the right operand's bindings AND instances win": an instance the left operand already created for a symbol must not survive when the right operand
+	# binds that symbol (otherwise the outcome of combine depends on whether the left operand happened to resolve the symbol before)
+	cf = di.method('combine')
+	merged = [n for n in walk_no_nested(cf.node) if isinstance(n, ast.Assign) and isinstance(n.targets[0], ast.Attribute) and n.targets[0].attr.endswith('__instances')] if cf is not None else []
+	merged += [n for n in walk_no_nested(cf.node) if isinstance(n, ast.Expr) and isinstance(n.value, ast.Call) and isinstance(n.value.func, ast.Attribute) and n.value.func.attr == 'update' and unparse(n.value.func.value).endswith('__instances')] if cf is not None else []
+	if not merged:
+		ra.skip('DI.combine:left-instances-of-rebound-symbols', (cf or di).where, 'DI.combine no longer merges the __instances stores')
+	else:
+		src_ = ' '.join(unparse(n) for n in walk_no_nested(cf.node) if isinstance(n, (ast.Assign, ast.Expr, ast.For, ast.If)))
+		drops = any(isinstance(x, ast.Compare) and isinstance(x.ops[0], ast.NotIn) and unparse(x.comparators[0]).endswith('__injectors') for x in ast.walk(cf.node)) or any(isinstance(x, (ast.Delete,)) or (isinstance(x, ast.Call) and isinstance(x.func, ast.Attribute) and x.func.attr in ('pop', 'unbind')) for x in ast.walk(cf.node))
+		ra.check(drops, 'DI.combine:left-instances-of-rebound-symbols', (DI_PY, merged[0].lineno), 'DI.combine merges the two __instances stores key by key: an instance the left operand already created for a symbol survives although the right operand binds that symbol (without an instance yet), so `left.combine(right).resolve(S)` answers with the LEFT instance if left resolved S before and with the right binding otherwise', unparse(merged[0]))
 	# the memo is exempt only while it is a pure function of the factory
 	inv = di.method('invoke')
 	ix = FI(inv)
@@ -230,7 +241,28 @@ def run(rep: Report, tier: str) -> None:
 		rc.skip('invoke-argument-order', inv.where, 'invoke no longer has curried arguments and *remain_args')
 	else:
 		rc.check(shape_ok, 'invoke-argument-order', inv.where, f'invoke must call {fparam}(*{curried}, *{vararg}); returns {[unparse(r_.value) for r_ in ret]}')
-	rc.note('DI.__assert_invoke indexes expect_types[index] while enumerating remain_args before comparing lengths: too many arguments raise IndexError rather than ValueError (observation, not armed: no static bound on the two lengths)')
+	# mismatched invoke arguments raise ValueError: the validation itself must not fail with another exception first. A list indexed with the position of an
+	# element of ANOTHER sequence (expect_types[index] while enumerating *remain_args) raises IndexError when that sequence is longer
+	ai = di.method('__assert_invoke')
+	if ai is None:
+		rc.skip('assert-invoke:bounded-index', di.where, 'DI.__assert_invoke vanished')
+	else:
+		ax = X(ai)
+		enum_idx: dict[str, str] = {}
+		for g in nodes(ax, (ast.For, ast.comprehension)):
+			it = g.iter
+			if isinstance(it, ast.Call) and unparse(it.func) == 'enumerate' and it.args and isinstance(g.target, ast.Tuple) and isinstance(g.target.elts[0], ast.Name):
+				enum_idx[g.target.elts[0].id] = unparse(it.args[0])
+		bad = []
+		for n in nodes(ax, ast.Subscript):
+			if isinstance(n.slice, ast.Name) and n.slice.id in enum_idx and unparse(n.value) != enum_idx[n.slice.id] and isinstance(n.ctx, ast.Load):
+				guarded = any(p_ and unparse(a) in (f'{n.slice.id} < len({unparse(n.value)})', f'len({unparse(n.value)}) > {n.slice.id}') for a, p_ in atoms(ax, n))
+				if not guarded:
+					bad.append(n)
+		lens = [unparse(c_) for c_ in nodes(ax, ast.Compare) if 'len(' in unparse(c_)]
+		vararg_ = ai.node.args.vararg.arg if ai.node.args.vararg else 'remain_args'
+		rc.check(not bad, 'assert-invoke:bounded-index', ai.where, f'__assert_invoke reads `{unparse(bad[0]) if bad else ""}` with the position of an element of another sequence and no bound: more arguments than unresolved parameters raise IndexError instead of the documented ValueError', unparse(bad[0]) if bad else '')
+		rc.check(any(f'len({vararg_})' in l for l in lens), 'assert-invoke:compares-argument-count', ai.where, f'__assert_invoke never compares the number of remaining arguments (len({vararg_})) with the number of unresolved parameters (length tests: {lens}): surplus arguments are not reported as ValueError')
 
 	# ---- (d) wiring ------------------------------------------------------------------------------------------------------------
 	rd = rep.rule('C19/per-module-container', 'the per-module DI is the shared container combined with a fresh LazyDI built from the module dependency definitions', floor=1)
